@@ -249,40 +249,56 @@ def check(pid, tier, seed):
             if len(samples) < 2 and len(path) > 3:
                 samples.append({"source": "tlc-path " + cfg, "sig": sig, "history": [step_line(g, ei)[2:] for ei in path][:20]})
         log("[%s] graph %s: %d states / %d edges, %d executions" % (pid, cfg, len(g.states), len(g.edges), len(meta)))
-    ycount = {"quick": 300, "thorough": 40000}[tier]
-    ys, ycfg = y_scripts(seed, ycount, reentrant=(pid == "C10"))
-    yres = common.run_harness(exe, ys)
-    # the same kind of histories on a build WITHOUT AddressSanitizer: its quarantine never hands a freed block out again, but the
-    # ordinary allocator gives a new observer the address of the one that was just removed (an address is not an identity)
-    ys2, ycfg2 = y_scripts("%s-plain" % seed, ycount, reentrant=(pid == "C10"))
-    ys2 = "\n".join(l.replace("X y", "X z", 1) if l.startswith("X y") else l for l in ys2.split("\n"))
-    yres.update(common.run_harness(plain_harness(), ys2))
-    ycfg.update({"z" + x[1:]: c for x, c in ycfg2.items()})
-    execs = {}
-    for x, c in ycfg.items():
-        recs = yres.get(x, [])
-        evs = y_events(recs, c)
-        if evs:
-            execs[x] = evs
-        crash = next((r for r in recs if r.get("e") == "Crash"), None)
-        fin = next((r for r in recs if r.get("e") == "Final"), None)
-        prob = None
-        if crash is not None:
-            prob = "sanitizer / signal during a valid history: " + " ".join(crash.get("stderr", "").split())[:300]
-        elif fin is not None and sorted(fin["destroyed"]) != list(range(1, fin["subscribed"] + 1)):
-            prob = "after destroying the Subject: observers destroyed %s of %d subscribed" % (sorted(fin["destroyed"]), fin["subscribed"])
-        if prob:
-            nobs = sum(1 for r in recs if r.get("e") in ("Obs", "Skip"))
-            verdict.violation("subject[random,%s] %s" % (c["sig"], " ".join(prob.split()[:6])), prob,
-                              {"component": "subject", "xid": x, "sig": c["sig"], "history": [list(s[:4]) + [sc_str(s[4])] for s in c["steps"][:nobs + 1]]})
-    acc, rej, tst = tracecheck.validate(SPEC, "SubjectTraceMC.tla", "SubjectTrace.cfg", execs)
-    log("[%s] trace validation: %d histories, %d rejected, TLC %.1fs" % (pid, len(execs), len(rej), tst["tlc_wall_s"]))
-    for x, info in rej.items():
-        nx = info["next"] or {}
-        verdict.violation("subject[random,%s] history rejected at %s" % (ycfg[x]["sig"], nx.get("op")), {"matched": info["matched"], "next": nx},
-                          {"component": "subject", "xid": x, "sig": ycfg[x]["sig"], "events": info["events"][:info["matched"] + 1]})
-    nexec += len(ycfg)
-    samples.append({"source": "random", "sig": ycfg[list(ycfg)[0]]["sig"], "history": [list(s[:4]) + [sc_str(s[4])] for s in ycfg[list(ycfg)[0]]["steps"][:15]]})
+    ycount = {"quick": 300, "thorough": 20000}[tier]   # on each of the two builds
+    # in chunks: a thorough run's recorded histories do not fit into memory all at once
+    CH = 4000
+    tsts, first_hist = [], None
+    nrej = nhist = 0
+    for c0 in range(0, ycount, CH):
+        n = min(CH, ycount - c0)
+        ys, ycfg = y_scripts("%s%s" % (seed, "" if c0 == 0 else "-%d" % c0), n, reentrant=(pid == "C10"))
+        yres = common.run_harness(exe, ys)
+        # the same kind of histories on a build WITHOUT AddressSanitizer: its quarantine never hands a freed block out again, but the
+        # ordinary allocator gives a new observer the address of the one that was just removed (an address is not an identity)
+        ys2, ycfg2 = y_scripts("%s-plain%s" % (seed, "" if c0 == 0 else "-%d" % c0), n, reentrant=(pid == "C10"))
+        ys2 = "\n".join(l.replace("X y", "X z", 1) if l.startswith("X y") else l for l in ys2.split("\n"))
+        yres.update(common.run_harness(plain_harness(), ys2))
+        ycfg.update({"z" + x[1:]: c for x, c in ycfg2.items()})
+        execs = {}
+        for x, c in ycfg.items():
+            recs = yres.get(x, [])
+            evs = y_events(recs, c)
+            if evs:
+                execs[x] = evs
+            crash = next((r for r in recs if r.get("e") == "Crash"), None)
+            fin = next((r for r in recs if r.get("e") == "Final"), None)
+            prob = None
+            if crash is not None:
+                prob = "sanitizer / signal during a valid history: " + " ".join(crash.get("stderr", "").split())[:300]
+            elif fin is not None and sorted(fin["destroyed"]) != list(range(1, fin["subscribed"] + 1)):
+                prob = "after destroying the Subject: observers destroyed %s of %d subscribed" % (sorted(fin["destroyed"]), fin["subscribed"])
+            if prob:
+                nobs = sum(1 for r in recs if r.get("e") in ("Obs", "Skip"))
+                verdict.violation("subject[random,%s] %s" % (c["sig"], " ".join(prob.split()[:6])), prob,
+                                  {"component": "subject", "xid": x, "sig": c["sig"], "history": [list(s[:4]) + [sc_str(s[4])] for s in c["steps"][:nobs + 1]]})
+        del yres
+        acc, rej, tst = tracecheck.validate(SPEC, "SubjectTraceMC.tla", "SubjectTrace.cfg", execs)
+        tsts.append(tst)
+        nhist += len(execs)
+        nrej += len(rej)
+        for x, info in rej.items():
+            nx = info["next"] or {}
+            verdict.violation("subject[random,%s] history rejected at %s" % (ycfg[x]["sig"], nx.get("op")), {"matched": info["matched"], "next": nx},
+                              {"component": "subject", "xid": x, "sig": ycfg[x]["sig"], "events": info["events"][:info["matched"] + 1]})
+        nexec += len(ycfg)
+        if first_hist is None:
+            k0 = list(ycfg)[0]
+            first_hist = {"source": "random", "sig": ycfg[k0]["sig"], "history": [list(s[:4]) + [sc_str(s[4])] for s in ycfg[k0]["steps"][:15]]}
+        del execs, ycfg, acc, rej
+    tst = dict(tsts[0], executions=sum(t["executions"] for t in tsts), distinct_traces=sum(t["distinct_traces"] for t in tsts),
+               tlc_wall_s=round(sum(t["tlc_wall_s"] for t in tsts), 2), tlc_states_generated=sum(t.get("tlc_states_generated", 0) for t in tsts))
+    log("[%s] trace validation: %d histories, %d rejected, TLC %.1fs" % (pid, nhist, nrej, tst["tlc_wall_s"]))
+    samples.append(first_hist)
     cov = {"states": tot_states, "transitions": tot_edges, "traces_validated_against_impl": nexec, "samples": samples,
            "exhaustive": bool(tot_cov == tot_edges), "evaluations": nexec, "distinct_nontrivial": len(seen_logs),
            "rule": "X: path cover of every edge of TLC's graph(s) of SubjectP executed per argument signature; Y: random histories of 20-100 operations "
